@@ -1,8 +1,20 @@
 (* Property C05 (part): the new internal leg of svd / qr / lq makes the factors contractible and gives them exactly
-   the requested total charges.  Only statements; proofs are `exact <lemma of Proofs/FactorP.v>`.
-   The numeric clauses of C05 (U S VH = a, isometry, triangular R, A v = w v, Moore-Penrose, expm, polar,
-   orthogonal_columns, speigs) are NOT proved; they are checked by the dense oracle of harness/c05.py. *)
-From TenpyV Require Import Base.Prelude Model.ChargeL Model.Leg Model.Factor Proofs.LegP Proofs.FactorP.
+   the requested total charges (T05_svd_charges, T05_svd_request, T05_qr_charges, T05_lq_charges); structure of the
+   eigh / eig results (T05_eig_structure); the block algebra around the per-block LAPACK calls of svd: exact per-block
+   factorisations give an exact dense product, per-block isometries give isometries in reduced mode, not with
+   full_matrices and a missing block (T05_block_reconstruct, T05_block_product, T05_block_isometry_U/_V,
+   T05_svd_full_refuted, T05_svd_inner_sizes); eigenpairs A V = V diag(w) of the assembled eigh / eig result
+   (T05_eig_pairs); the block product of qr / lq factors (T05_matched_product, T05_qr_block_reconstruct); the phase bookkeeping of qr(pos_diag_R=True) for real blocks
+   (T05_qr_pos_diag).  Only statements; proofs are `exact <lemma of Proofs/Factor*P*.v>`.
+   LAPACK itself is NOT modelled: its results are universally quantified inputs with their specification as
+   hypotheses.  The remaining numeric clauses of C05 (triangular R from numpy, A v = w v, Moore-Penrose, expm, polar,
+   orthogonal_columns, speigs, complex entries) are NOT proved; they are checked by the dense oracle of harness/c05.py.
+   Model/Factor2.v (lq by transposition, eig plan) and Model/FactorDense.v (dense values) are not executed against the
+   code by a correspondence stream of their own: lq_charges IS qr_charges (correspondence-checked, also on the lq cases)
+   on the transposed matrix, the dense assembly is linked to the checked svd plan by T05_svd_inner_sizes, the eig plan
+   and pos_diag are transcriptions of _eig_worker / qr tied to the code by reading and by the dense oracle only. *)
+From TenpyV Require Import Base.Prelude Model.ChargeL Model.Leg Model.Factor Proofs.LegP Proofs.FactorP
+  Model.Factor2 Model.FactorDense Model.FactorDense2 Proofs.FactorP2 Proofs.FactorDenseP Proofs.FactorDenseP2.
 Open Scope Z_scope.
 
 (* svd (reduced): for every completely blocked rank-2 charge structure (mat_wf: stored blocks obey the charge rule),
@@ -46,6 +58,247 @@ Example T05_example :
   /\ blocks (r_inner (qr_charges [3; 1] ex_mat [2; 1] false (Some [2; 1]) (-1))) = [(2, [2; 0]); (1, [1; 1])].
 Proof. vm_compute. split; reflexivity. Qed.
 
+(* lq (reduced / complete) = transposed qr of the transposed matrix: L.legs = [a.legs[0], inner], Q.legs = [inner.conj(),
+   a.legs[1]]; Q.qtotal = requested qtotal_Q (default 0), L.qtotal + Q.qtotal = a.qtotal, every block of Q (row = inner
+   block, column = block j of a.legs[1]) and every block of L (stored block (i, j) of a) obeys the charge rule, for ANY
+   numbers of kept rows; L.legs[1].qconj = inner_qconj; inner legs contractible *)
+Theorem T05_lq_charges : forall ci a ks complete qQ iq,
+  (iq = 1 \/ iq = -1) -> (qc (mR a) = 1 \/ qc (mR a) = -1) -> mat_wf ci a -> req_wf ci qQ ->
+  let p := lq_charges ci a ks complete qQ iq in
+  make_valid ci (vadd (r_qR p) (r_qQ p)) = mq a /\
+  r_qQ p = make_valid ci (q_req ci qQ) /\
+  Forall (lrow_ok ci a iq (r_qR p) (r_qQ p)) (r_map p) /\
+  qc (r_inner p) = iq /\ blocks (r_inner p) = map snd (r_map p) /\
+  contractible ci (r_inner p) (conj_leg (r_inner p)) = true.
+Proof. exact lq_charges_ok. Qed.
+
+Example T05_lq_example :
+  (let p := lq_charges [3; 1] ex_mat [3; 1] false (Some [2; 1]) 1 in (r_map p, qc (r_inner p), r_qQ p, r_qR p))
+    = ([(0%nat, (1, [2; -1])); (1%nat, (3, [0; -2]))], 1, [2; 1], [0; -1]) /\
+  (let p := lq_charges [3; 1] ex_mat [3; 1] true None (-1) in (r_map p, qc (r_inner p), r_qQ p, r_qR p))
+    = ([(0%nat, (2, [2; 0])); (1%nat, (3, [1; 1]))], -1, [0; 0], [2; 0]).
+Proof. vm_compute. split; reflexivity. Qed.
+
+(* eigh / eig (_eig_worker after as_completely_blocked, qtotal = 0 as the code checks, legs [l, l.conj()]), for ANY
+   result `eigb k = (rw, rv)` of the LAPACK call on stored block number k that returns as many eigenvalues as the block
+   has rows (eig_sizes), one stored block per row sector (NoDup): the eigenvector matrix has exactly one block (q, q)
+   per charge sector q in leg order - LAPACK's rv for the stored block of that sector, the identity for a sector without
+   stored block; the eigenvalue vector is the concatenation over the sectors in leg order of rw resp. zeros, so its
+   length is the dimension of the leg; every block (q, q) obeys the charge rule with total charge 0; the two legs are
+   contractible.  (The imperative plan - item assignment into diag(1) and slice assignment into zeros - equals the
+   sector-wise description.) *)
+Theorem T05_eig_structure : forall (B W : Type) (eye : Z -> B) (w0 : W) (eigb : nat -> list W * B) ci l data,
+  sizes_nonneg l -> charges_wf ci l -> NoDup (map fst data) ->
+  Forall (fun ij => (fst ij < nblocks l)%nat) data -> eig_sizes eigb l data 0 ->
+  eig_plan eye w0 eigb l data =
+    (map (fun q => (q, q, sector_v eye eigb l data q)) (seq 0 (nblocks l)),
+     concat (map (sector_w w0 eigb l data) (seq 0 (nblocks l)))) /\
+  (forall q, (q < nblocks l)%nat ->
+     rule2 ci (leg_charge l q) (leg_charge (conj_leg l) q) (vzero (length ci)) = true) /\
+  contractible ci l (conj_leg l) = true /\
+  Z.of_nat (length (snd (eig_plan eye w0 eigb l data))) = ind_len l.
+Proof. exact eig_structure_full. Qed.
+
+(* non-vacuity: three sectors, the middle one without stored block, blocks stored out of leg order *)
+Definition ex_leg : leg := mkLeg [(2, [0; 1]); (1, [1; 0]); (2, [2; -1])] 1.
+Definition ex_eye (n : Z) : list (list Z) :=
+  map (fun i => map (fun j => if Nat.eqb i j then 1 else 0) (seq 0 (Z.to_nat n))) (seq 0 (Z.to_nat n)).
+Definition ex_eigb (k : nat) : list Z * list (list Z) :=
+  match k with 0%nat => ([5; 7], [[1; 1]; [1; -1]]) | _ => ([-3; 4], [[2; 1]; [1; -2]]) end.
+Definition ex_edata : list (nat * nat) := [(2%nat, 2%nat); (0%nat, 0%nat)].
+Example T05_eig_example_hyps :
+  sizes_nonneg ex_leg /\ charges_wf [3; 1] ex_leg /\ NoDup (map fst ex_edata) /\
+  Forall (fun ij => (fst ij < nblocks ex_leg)%nat) ex_edata /\ eig_sizes ex_eigb ex_leg ex_edata 0.
+Proof.
+  split; [repeat constructor; cbn; lia|]. split; [repeat constructor|]. split; [repeat constructor; cbn; intuition lia|].
+  split; [repeat constructor; cbn; lia|].
+  intros k qi qj H. destruct k as [|[|[|k]]]; cbn in H; try discriminate; injection H as <- <-; reflexivity.
+Qed.
+Example T05_eig_example :
+  eig_plan ex_eye 0 ex_eigb ex_leg ex_edata =
+  ([(0%nat, 0%nat, [[2; 1]; [1; -2]]); (1%nat, 1%nat, [[1]]); (2%nat, 2%nat, [[1; 1]; [1; -1]])], [-3; 4; 0; 5; 7]).
+Proof. vm_compute. reflexivity. Qed.
+
+(* svd, the algebraic core of "U S VH = a" (values in Z, blocks as functions with the dimensions of the legs):
+   for ANY function `fac` (LAPACK + cutoff on a block of the given shape) whose result is exact on every block
+   (fac_exact: U_b diag(S_b) VH_b = M_b), any block sizes rs / cs of the two legs and any list of stored blocks `a`
+   (any number of sectors, sectors without stored block, one-sided sectors, blocks with no kept value, which are dropped):
+   the dense product of the assembled factors - U with _qdata [qi_L, arange], S = concatenate, VH with _qdata
+   [arange, qi_R], new leg with slices = cumulative kept ranks - is the dense input, at every index (r, c). *)
+Theorem T05_block_reconstruct : forall (fac : nat -> nat -> dmat -> fac3),
+  (forall nr nc M x y, (x < nr)%nat -> (y < nc)%nat -> fac_prod (fac nr nc M) x y = M x y) ->
+  forall rs cs a r c,
+  let ks := kept (factor_blocks fac rs cs a) in
+  usv (list_sum (inner_sizes ks)) (dense rs (inner_sizes ks) (svd_U ks)) (svd_S ks) (dense (inner_sizes ks) cs (svd_V ks)) r c
+  = dense rs cs a r c.
+Proof. exact svd_reconstruct. Qed.
+
+(* the same without any hypothesis on the per-block results (e.g. with a cutoff): the dense product of the assembled
+   factors is the block matrix of the per-block products U_b diag(S_b) VH_b - the discarded part of `a` is exactly the
+   part discarded inside the blocks *)
+Theorem T05_block_product : forall rs cs fs r c,
+  let ks := kept fs in
+  usv (list_sum (inner_sizes ks)) (dense rs (inner_sizes ks) (svd_U ks)) (svd_S ks) (dense (inner_sizes ks) cs (svd_V ks)) r c
+  = dense rs cs (map prod_ent fs) r c.
+Proof. exact svd_product. Qed.
+
+(* reduced mode: per-block isometries U_b^T U_b = 1 and at most one kept block per row sector (complete blocking)
+   give U^T U = 1 on the new leg; likewise VH VH^T = 1 *)
+Theorem T05_block_isometry_U : forall rs ks,
+  let ns := inner_sizes ks in
+  NoDup (map sb_row ks) ->
+  (forall e, In e ks -> forall a b, (a < f_n (sb_fac e))%nat -> (b < f_n (sb_fac e))%nat ->
+     sumn (bsize rs (sb_row e)) (fun x => f_U (sb_fac e) x a * f_U (sb_fac e) x b) = delta a b) ->
+  forall t t', (t < list_sum ns)%nat -> (t' < list_sum ns)%nat ->
+  sumn (list_sum rs) (fun r => dense rs ns (svd_U ks) r t * dense rs ns (svd_U ks) r t') = delta t t'.
+Proof. exact svd_U_isometry. Qed.
+
+Theorem T05_block_isometry_V : forall cs ks,
+  let ns := inner_sizes ks in
+  NoDup (map sb_col ks) ->
+  (forall e, In e ks -> forall a b, (a < f_n (sb_fac e))%nat -> (b < f_n (sb_fac e))%nat ->
+     sumn (bsize cs (sb_col e)) (fun y => f_V (sb_fac e) a y * f_V (sb_fac e) b y) = delta a b) ->
+  forall t t', (t < list_sum ns)%nat -> (t' < list_sum ns)%nat ->
+  sumn (list_sum cs) (fun c => dense ns cs (svd_V ks) t c * dense ns cs (svd_V ks) t' c) = delta t t'.
+Proof. exact svd_V_isometry. Qed.
+
+(* full_matrices=True (U.legs = [legs[0], legs[0].conj()], U._qdata = [qi_L, qi_L] for the stored blocks only):
+   with unitary per-block U_b and one block per stored row sector, U^T U is NOT the identity when a row sector has no
+   stored block (finding F05.1) *)
+Theorem T05_svd_full_refuted : exists rs fs,
+  NoDup (map sb_row fs) /\
+  (forall e, In e fs -> forall a b, (a < bsize rs (sb_row e))%nat -> (b < bsize rs (sb_row e))%nat ->
+     sumn (bsize rs (sb_row e)) (fun x => f_U (sb_fac e) x a * f_U (sb_fac e) x b) = delta a b) /\
+  exists t, (t < list_sum rs)%nat /\ gram (list_sum rs) (dense rs rs (svd_U_full fs)) t t <> delta t t.
+Proof. exact svd_full_refuted. Qed.
+
+(* link of the dense assembly to the correspondence-checked charge plan: fed with the same stored blocks and kept ranks,
+   svd_charges keeps the same blocks at the same coordinates, and the sizes of VH.legs[0] are the inner sizes *)
+Theorem T05_svd_inner_sizes : forall ci a fs oL oR iq p,
+  mdata a = map (fun e => (sb_row e, sb_col e)) fs ->
+  svd_charges ci a (map (fun e => Z.of_nat (f_n (sb_fac e))) fs) oL oR iq = Some p ->
+  map (fun r : krow => (fst (fst r), snd (fst r), fst (snd r))) (s_rows p)
+    = map (fun e => (sb_row e, sb_col e, Z.of_nat (f_n (sb_fac e)))) (kept fs) /\
+  bsz (s_legR p) = map Z.of_nat (inner_sizes (kept fs)).
+Proof. exact svd_plan_link. Qed.
+
+(* non-vacuity: an exact `fac` exists (U = 1, S = 1, VH = M); a concrete rank-1 block, a block without kept value (dropped; its
+   row sector 2 and column sector 0 stay empty), two blocks in one column sector, evaluated at every index *)
+Example T05_fac_exact_example : forall nr nc M x y, (x < nr)%nat -> (y < nc)%nat -> fac_prod (triv_fac nr nc M) x y = M x y.
+Proof. exact triv_fac_exact. Qed.
+Definition ex_fs : list sblock :=
+  [(0%nat, 1%nat, mkFac3 1 (of_rows [[1]; [2]]) (of_list [3]) (of_rows [[1; -1]]));
+   (2%nat, 0%nat, mkFac3 0 (of_rows []) (of_list []) (of_rows []));
+   (1%nat, 1%nat, mkFac3 1 (of_rows [[-1]]) (of_list [2]) (of_rows [[0; 1]]))].
+Definition tab (nr nc : nat) (A : dmat) : list (list Z) := map (fun r => map (fun c => A r c) (seq 0 nc)) (seq 0 nr).
+Example T05_block_product_example :
+  let ks := kept ex_fs in
+  tab 5 3 (usv (list_sum (inner_sizes ks)) (dense [2; 1; 2]%nat (inner_sizes ks) (svd_U ks)) (svd_S ks)
+               (dense (inner_sizes ks) [1; 2]%nat (svd_V ks)))
+  = [[0; 3; -3]; [0; 6; -6]; [0; 0; -2]; [0; 0; 0]; [0; 0; 0]] /\ inner_sizes ks = [1; 1]%nat.
+Proof. vm_compute. split; reflexivity. Qed.
+(* isometry hypotheses are satisfiable: columns (1,0)^T of sector 0 and (1) of sector 1 *)
+Definition ex_iso : list sblock :=
+  [(0%nat, 1%nat, mkFac3 1 (of_rows [[1]; [0]]) (of_list [3]) (of_rows [[1; 0]]));
+   (1%nat, 0%nat, mkFac3 1 (of_rows [[-1]]) (of_list [2]) (of_rows [[1]]))].
+Example T05_block_isometry_example :
+  NoDup (map sb_row ex_iso) /\
+  (forall e, In e ex_iso -> forall a b, (a < f_n (sb_fac e))%nat -> (b < f_n (sb_fac e))%nat ->
+     sumn (bsize [2; 1; 2]%nat (sb_row e)) (fun x => f_U (sb_fac e) x a * f_U (sb_fac e) x b) = delta a b).
+Proof.
+  split; [repeat constructor; cbn; intuition lia|].
+  intros e [<-|[<-|[]]] a b Ha Hb; cbn in Ha, Hb; assert (a = 0%nat) by lia; assert (b = 0%nat) by lia; subst; reflexivity.
+Qed.
+
+(* eigh / eig, "A v = w v": the leg has one sector per entry of `es` (sizes inner_sizes es); sector q carries the block of
+   a (f_V, zero if not stored), the block of resv (f_U: LAPACK's rv, or the identity) and the slice of resw (f_S: rw, or
+   zeros) - the sector-wise result established by T05_eig_structure.  If every sector satisfies M_q V_q = V_q diag(w_q)
+   (LAPACK's specification for a stored block; trivially true for 0, identity, 0) then the dense matrices satisfy
+   (A V)[r, c] = V[r, c] * w[c] at every index, for any number of sectors *)
+Theorem T05_eig_pairs : forall es,
+  let rs := inner_sizes es in
+  (forall e, In e es -> forall x y, (x < f_n (sb_fac e))%nat -> (y < f_n (sb_fac e))%nat ->
+     sumn (f_n (sb_fac e)) (fun b => f_V (sb_fac e) x b * f_U (sb_fac e) b y) = f_U (sb_fac e) x y * f_S (sb_fac e) y) ->
+  forall r c, (c < list_sum rs)%nat ->
+  sumn (list_sum rs) (fun x => dense rs rs (eig_A es) r x * dense rs rs (eig_V es) x c)
+  = dense rs rs (eig_V es) r c * svd_S es c.
+Proof. exact eig_pairs. Qed.
+
+(* non-vacuity: sector 0 = [[0,1],[1,0]] with eigenvectors (1,1), (1,-1) and eigenvalues 1, -1 (integer multiples of the
+   normalised vectors); sector 1 without stored block *)
+Definition ex_es : list sblock :=
+  [(0%nat, 0%nat, mkFac3 2 (of_rows [[1; 1]; [1; -1]]) (of_list [1; -1]) (of_rows [[0; 1]; [1; 0]]));
+   (1%nat, 1%nat, mkFac3 1 delta (fun _ => 0) (fun _ _ => 0))].
+Example T05_eig_pairs_example :
+  forall e, In e ex_es -> forall x y, (x < f_n (sb_fac e))%nat -> (y < f_n (sb_fac e))%nat ->
+     sumn (f_n (sb_fac e)) (fun b => f_V (sb_fac e) x b * f_U (sb_fac e) b y) = f_U (sb_fac e) x y * f_S (sb_fac e) y.
+Proof.
+  intros e [<-|[<-|[]]] x y Hx Hy; cbn in Hx, Hy; destruct x as [|[|x]], y as [|[|y]]; try lia; reflexivity.
+Qed.
+
+(* qr / lq (reduced or complete), the algebraic core of "Q R = a": the k-th stored block gives the pair Q-block (i_k, x_k),
+   R-block (x_k, j_k) where x_k is the number of its block of the inner leg (map_qind[qi_L] resp. qi_L); if these inner
+   blocks are pairwise distinct, the dense product of the assembled factors is the block matrix of the per-pair products
+   (any sizes ns of the inner leg, any number of sectors) ... *)
+Theorem T05_matched_product : forall rs ns cs ps r c, NoDup (map p_x ps) ->
+  mmul (list_sum ns) (dense rs ns (pairs_L ps)) (dense ns cs (pairs_R ps)) r c = dense rs cs (pairs_prod ns ps) r c.
+Proof. exact matched_product. Qed.
+
+(* ... hence exact per-block factorisations Q_b R_b = M_b give Q R = a at every index *)
+Theorem T05_qr_block_reconstruct : forall rs ns cs ps (a : list bent) r c, NoDup (map p_x ps) ->
+  Forall2 (fun p (e : bent) => fst (fst e) = p_i p /\ snd (fst e) = p_j p /\
+     forall x y, (x < bsize rs (p_i p))%nat -> (y < bsize cs (p_j p))%nat ->
+       mmul (bsize ns (p_x p)) (p_A p) (p_B p) x y = snd e x y) ps a ->
+  mmul (list_sum ns) (dense rs ns (pairs_L ps)) (dense ns cs (pairs_R ps)) r c = dense rs cs a r c.
+Proof. exact matched_reconstruct. Qed.
+
+(* non-vacuity: row sectors of sizes 2, 1 (the second without stored block, so the projected inner leg has one block) *)
+Definition ex_ps : list mpair := [mkPair 0 0 1 (of_rows [[1; 0]; [0; -1]]) (of_rows [[1; 2]; [0; 3]])].
+Definition ex_qr_a : list bent := [(0%nat, 1%nat, of_rows [[1; 2]; [0; -3]])].
+Example T05_qr_block_example :
+  NoDup (map p_x ex_ps) /\
+  Forall2 (fun p (e : bent) => fst (fst e) = p_i p /\ snd (fst e) = p_j p /\
+     forall x y, (x < bsize [2; 1]%nat (p_i p))%nat -> (y < bsize [1; 2]%nat (p_j p))%nat ->
+       mmul (bsize [2]%nat (p_x p)) (p_A p) (p_B p) x y = snd e x y) ex_ps ex_qr_a.
+Proof.
+  split; [repeat constructor; cbn; tauto|]. repeat constructor.
+  intros x y Hx Hy. cbn in Hx, Hy. destruct x as [|[|x]], y as [|[|y]]; try lia; reflexivity.
+Qed.
+
+(* qr(pos_diag_R=True) on one real block, R of shape (P, N), K = min(P, N) = len(diag(R)), phase = r_kk / |r_kk|:
+   if no diagonal entry of R is zero, the call succeeds and Q' = Q.phase, R' = conj(phase).R satisfy Q'R' = QR
+   (every entry), diag R' > 0, zeros of R stay zeros (triangularity is preserved), orthonormal columns of Q stay
+   orthonormal.  With a zero on the diagonal (rank-deficient block) the code divides 0/0: NaN (finding F05.3), modelled
+   as None: T05_qr_pos_diag_nan. *)
+Theorem T05_qr_pos_diag : forall P N Q R, (forall k, (k < Nat.min P N)%nat -> R k k <> 0) ->
+  exists Q' R', pos_diag P N Q R = Some (Q', R') /\
+    (forall r c, sumn P (fun k => Q' r k * R' k c) = sumn P (fun k => Q r k * R k c)) /\
+    (forall k, (k < Nat.min P N)%nat -> 0 < R' k k) /\
+    (forall k c, R k c = 0 -> R' k c = 0) /\
+    (forall M, (forall k k', (k < P)%nat -> (k' < P)%nat -> sumn M (fun r => Q r k * Q r k') = delta k k') ->
+               forall k k', (k < P)%nat -> (k' < P)%nat -> sumn M (fun r => Q' r k * Q' r k') = delta k k').
+Proof. exact qr_pos_diag_ok. Qed.
+
+Example T05_qr_pos_diag_example :
+  match pos_diag 2 3 (of_rows [[1; 0]; [0; 1]]) (of_rows [[-2; 1; 5]; [0; 3; -1]]) with
+  | Some (Q, R) => Some (tab 2 2 Q, tab 2 3 R) | None => None end
+  = Some ([[-1; 0]; [0; 1]], [[2; -1; -5]; [0; 3; -1]]).
+Proof. vm_compute. reflexivity. Qed.
+Example T05_qr_pos_diag_nan : pos_diag 2 2 (of_rows [[1; 0]; [0; 1]]) (of_rows [[-2; 1]; [0; 0]]) = None.
+Proof. vm_compute. reflexivity. Qed.
+
 Print Assumptions T05_svd_charges.
 Print Assumptions T05_svd_request.
 Print Assumptions T05_qr_charges.
+Print Assumptions T05_lq_charges.
+Print Assumptions T05_eig_structure.
+Print Assumptions T05_block_reconstruct.
+Print Assumptions T05_block_product.
+Print Assumptions T05_block_isometry_U.
+Print Assumptions T05_block_isometry_V.
+Print Assumptions T05_svd_full_refuted.
+Print Assumptions T05_svd_inner_sizes.
+Print Assumptions T05_qr_pos_diag.
+Print Assumptions T05_eig_pairs.
+Print Assumptions T05_matched_product.
+Print Assumptions T05_qr_block_reconstruct.
